@@ -1378,6 +1378,19 @@ DTLS_CHECK_REPLAY:
  */
         if (ssl->hsState == SSL_HS_FINISHED)
         {
+#ifdef USE_STATELESS_SESSION_TICKETS
+            /* RFC 5077 3.3: a server that put the SessionTicket extension in
+                its ServerHello MUST send a NewSessionTicket (possibly empty)
+                before its ChangeCipherSpec.  RECVD_EXT is left when that
+                message is parsed, so it is still outstanding here */
+            if (!(ssl->flags & SSL_FLAGS_SERVER) && ssl->sid &&
+                ssl->sid->sessionTicketState == SESS_TICKET_STATE_RECVD_EXT)
+            {
+                ssl->err = SSL_ALERT_UNEXPECTED_MESSAGE;
+                psTraceErrr("ChangeCipherSpec before NewSessionTicket\n");
+                goto encodeResponse;
+            }
+#endif
             /* Exactly one ChangeCipherSpec precedes Finished.  A repeated
                 one must not re-activate the read cipher and reset the
                 read sequence number (DTLS duplicates are handled above) */
@@ -2251,6 +2264,7 @@ parseHandshake:
         if ((hsType == SSL_HS_NEW_SESSION_TICKET) &&
             (ssl->hsState == SSL_HS_FINISHED) && ssl->sid &&
             (ssl->sid->sessionTicketState == SESS_TICKET_STATE_RECVD_EXT) &&
+            !(ssl->bFlags & BFLAG_CCS_RECVD) && /* RFC 5077: ticket precedes CCS */
             !(ssl->flags & SSL_FLAGS_SERVER))
         {
             ssl->hsState = hsType;
